@@ -310,9 +310,7 @@ def check_helpers(res, facts, has_std):
     for name, want in (("saturating_sub_usize_u64", "sat"), ("min_u64_usize", "min")):
         l = [b for b in facts.fn_bodies() if b.id == name]
         if not l:
-            if has_std:
-                raise RuleError("C7: helper %s not found" % name)
-            continue
+            continue        # a missing helper is reported at its use (Cursor::remaining / Cursor::chunk must call it)
         b = l[0]
         alts = ret_alts(b, facts)
         key = name + "|u64 position helper"
